@@ -228,6 +228,8 @@ type Checker struct {
 	C16     bool // additionally check error positions of single-fault cases
 	Prop    string
 	samples int
+	nViol   int
+	nHold   int
 }
 
 func replayOf(c Case) map[string]any {
@@ -426,13 +428,21 @@ func (ck *Checker) Run(cases []Case) {
 			ck.samples++
 			ck.Res.AddSample(map[string]any{"stream": c.Stream, "text": c.Text, "go": g, "model": m, "spec": s})
 		}
-		examined := func() bool {
-			if len(ck.Res.Disagreements) >= 50 {
-				ck.Res.Count("disagreements_not_examined", 1)
-				return false
+		// at most 25 recorded disagreements without a concrete violation and 25 with one, so that a
+		// flood of "both reject, error lists differ" cannot crowd out a text on which the property fails
+		examinedV := func(violates bool) bool {
+			if violates && ck.nViol < 25 {
+				ck.nViol++
+				return true
 			}
-			return true
+			if !violates && ck.nHold < 25 {
+				ck.nHold++
+				return true
+			}
+			ck.Res.Count("disagreements_not_recorded", 1)
+			return false
 		}
+		examined := func() bool { return examinedV(true) }
 		if strings.HasPrefix(g, "panic ") {
 			if examined() {
 				ck.Res.AddDisagreement(lib.Disagreement{Kind: "crash", Input: c, Go: g, Model: m, SpecVerdict: "violates",
@@ -462,7 +472,7 @@ func (ck *Checker) Run(cases []Case) {
 			}
 		}
 		if g != m {
-			if examined() {
+			if examinedV(v == "violates") {
 				if v == "" {
 					v = "holds"
 				}
